@@ -41,6 +41,7 @@ def run(ctx):
     generate_vis(ctx, facts)
     forwarders(ctx, facts)
     generator_shape(ctx, facts)
+    random_cover(ctx, facts)
     ctx.assume("AES / HKDF behave as ideal primitives; absence of (step, index) reuse over all executions is not decided")
 
 
@@ -369,3 +370,55 @@ def generator_shape(ctx, facts):
         okq = len(enc) == 1 and flow.dominates(dom, ui[0][0], enc[0][0]) and "('arg', 2)" in str(flow.expr_of(g, ui[0][1]["args"][1], max_depth=12))
         unw = any((F.callee(t)[0] or "").endswith("Result::<T, E>::unwrap") and "use_index" in str(flow.expr_of(g, t["args"][0], max_depth=12)) for bb, t in g.calls())
         ctx.ob("SHAPE-generator", "generate:reuse-guard", okq and unw, "use_index(index) is checked (and its error not ignored) before the block is produced" if okq and unw else "the repeated-index guard is bypassed, sees a different index or its verdict is ignored", site_of(g, ui[0][0]))
+
+
+def random_cover(ctx, facts):
+    """Vectorised values drawn from PRSS: element i of StdArray<T, W>::from_random must consume its own blocks of the
+    u128 source array, and together the elements must use every block exactly once - a block that feeds two elements
+    makes them correlated (randomness reuse at offset granularity), one that feeds none is wasted entropy."""
+    from rules.C13 import ieval, NoEval
+    ctx.rule("COVER-random: for every `impl FromRandom for StdArray<T, W>` that slices its source per element, the slice bounds evaluated for i in 0..W tile [0, SourceLength) exactly (disjoint, contiguous, complete)")
+    n = 0
+    for im in facts.impls:
+        if not (im.get("trait") or "").endswith("FromRandom") or "StdArray<" not in im["self"]:
+            continue
+        m = re.search(r"StdArray<(.+), (\d+)>$", im["self"])
+        sl = [it.get("usize") for it in im["items"] if it["name"] == "SourceLength"]
+        if not m or not sl or sl[0] is None:
+            continue
+        W, SL = int(m.group(2)), int(sl[0])
+        root = f"<{im['self']} as protocol::prss::crypto::FromRandom>::from_random"
+        rng = None
+        for b in facts.tree(root):
+            for bb, t in b.calls():
+                if (F.callee(t)[0] or "").endswith("Index::index"):
+                    base = str(flow.expr_of(b, t["args"][0], max_depth=12))
+                    r = flow.fold(flow.expr_of(b, t["args"][1], max_depth=20))
+                    if ("'src'" in base or "('arg', 1)" in base or "upvar" in base) and r[0] == "agg" and isinstance(r[1], tuple) and r[1][0] == "std::ops::Range":
+                        rng = (b, bb, r[2][0], r[2][1])
+        short = re.sub(r"\b(\w+::)+", "", im["self"])
+        if rng is None:
+            if W == 1:
+                continue
+            ctx.ob("COVER-random", f"{short}:per-element-slices", False, "cannot find the per-element slice of the PRSS source array", None)
+            continue
+        n += 1
+        b, bb, lo_e, hi_e = rng
+        ctx.count(bodies=1)
+        bad = None
+        try:
+            nxt = 0
+            for i in range(W):
+                env = {("arg", 2): i}
+                lo, hi = ieval(lo_e, env), ieval(hi_e, env)
+                if lo != nxt or hi <= lo:
+                    bad = bad or (i, lo, hi, nxt)
+                nxt = hi
+            if bad is None and nxt != SL:
+                bad = (W - 1, None, nxt, SL)
+            ok = bad is None
+            why = f"{W} elements x {SL // W} block(s) tile the {SL}-block source" if ok else (f"element {bad[0]} takes blocks {bad[1]}..{bad[2]} but the previous element ended at {bad[3]}: blocks are shared between neighbouring elements (correlated randomness) and others are never used" if bad[1] is not None else f"the elements use blocks 0..{bad[2]} of a {bad[3]}-block source")
+        except NoEval as u:
+            ok, why = False, f"cannot evaluate the slice bounds ({u})"
+        ctx.ob("COVER-random", f"{short}:blocks-tile-source", ok, why, site_of(b, bb))
+    ctx.floor("COVER-random", "sliced FromRandom impls for StdArray", n, 3)
